@@ -1,6 +1,7 @@
 //! Runner, statistics, evidence, findings, panic capture, coordinator/worker split.
 pub mod choices;
 pub mod coord;
+pub mod idehost;
 pub mod panics;
 pub mod watchdog;
 
